@@ -424,7 +424,7 @@ def blocks(tier, seed):
               'a never-ending loop under every chain (<= 3) of CALL/EVAL/IF/TRY/EXCEPT levels x call-stack limits 1,2,3,5,16', nshards=64),
         Block('B_truncations', pairs, family_b, 'every byte-prefix of every <=2 statement program', nshards=64),
         Block('D_huge_operands', huge_cases(), family_d, 'count/size/index operands from stack or tape x huge values, tracemalloc peak', nshards=32),
-        Block('E_deep_nesting_recursion', [family_e_cases(tier)], family_e, 'nesting depth {1,8,64,250} x recursion on the bare VM (fresh process)', nshards=1),
+        Block('E_deep_nesting_recursion', [family_e_cases(tier)], family_e, 'nesting depth {1,8,64,250} x recursion on the bare VM (fresh process)', nshards=1, backstop=1800),
     ]
     return bl
 
